@@ -18,14 +18,20 @@ def z3_to_py(v, ty, model, ids=None):
         n = model.eval(v.len, model_completion=True).as_long()
         n = max(0, min(n, len(v.elems)))
         return [z3_to_py(v.elems[i], 'QString', model) for i in range(n)]
-    r = model.eval(v, model_completion=True)
+    r = _closed_value(model.eval(v, model_completion=True))
     if ty in ('int',) or ty.startswith('enum:'):
         x = r.as_long()
         return x - (1 << 32) if x >= (1 << 31) else x
     if ty == 'uint':
         return r.as_long()
     if ty == 'bool':
-        return z3.is_true(r)
+        r = z3.simplify(r)
+        if z3.is_true(r) or z3.is_false(r):
+            return z3.is_true(r)
+        # closed term the model evaluator leaves unreduced (e.g. `"" < "q"` becomes Not("" == "q")): ask the solver
+        sv = z3.Solver()
+        sv.add(r)
+        return sv.check() == z3.sat
     if ty == 'double':
         bits = z3.simplify(z3.fpToIEEEBV(r))
         if z3.is_bv_value(bits):
@@ -39,6 +45,22 @@ def z3_to_py(v, ty, model, ids=None):
         k = r.as_long()
         return None if k == 0 else (ids[k - 1] if ids and 1 <= k <= len(ids) else f'#{k}')
     raise ValueError(ty)
+
+
+def _closed_value(r):
+    """closed terms the model evaluator leaves unreduced (z3 4.8 does not fold string comparisons, e.g.
+    `If("" == "q", ..)`): pin the term to a fresh constant and read that constant from a solver model"""
+    r = z3.simplify(r)
+    if z3.is_bool(r) or z3.is_fp(r):
+        return r
+    if z3.is_bv_value(r) or z3.is_string_value(r) or z3.is_int_value(r):
+        return r
+    c = z3.FreshConst(r.sort(), 'cv')
+    sv = z3.Solver()
+    sv.add(c == r)
+    if sv.check() != z3.sat:
+        raise ValueError('cannot evaluate ' + str(r))
+    return sv.model().eval(c, model_completion=True)
 
 
 def decode_z3_string(s):
